@@ -722,6 +722,9 @@ func (x *Exec) Rename(fd Ref, fn string, td Ref, tn string) error {
 			x.Unflushed = false
 			x.Mutations++
 		}
+		if src := fd.N.Children[fn]; src != nil && src.IsDir() && fd.N != td.N {
+			St.Class("directories_moved_to_another_parent")
+		}
 		x.M.Rename(fd.N, fn, td.N, tn)
 		x.Budget -= 2
 	}
@@ -1082,24 +1085,45 @@ func compareFile(api API, fh nt.Nfs_fh3, n *MNode, writtenOnly bool) error {
 		off := blocks[i] * BlockSize
 		cnt := (blocks[j] - blocks[i] + 1) * BlockSize
 		exp := n.ReadAt(off, cnt)
-		res := api.NFSPROC3_READ(nt.READ3args{File: fh, Offset: nt.Offset3(off), Count: nt.Count3(cnt)})
-		if res.Status != nt.NFS3_OK {
-			return fmt.Errorf("READ of %s at %d failed with status %d", n.Path(), off, res.Status)
+		got, st := readFull(api, fh, off, cnt)
+		if st != nt.NFS3_OK {
+			return fmt.Errorf("READ of %s at %d failed with status %d", n.Path(), off, st)
 		}
-		if d := firstDiff(res.Resok.Data, exp); d >= 0 {
+		if d := firstDiff(got, exp); d >= 0 {
 			var g, w byte
-			if d < len(res.Resok.Data) {
-				g = res.Resok.Data[d]
+			if d < len(got) {
+				g = got[d]
 			}
 			if d < len(exp) {
 				w = exp[d]
 			}
 			return &OracleErr{Kind: dataKind(g, w), Msg: fmt.Sprintf("%s differs from the reference at offset %d (block %d): got %#x want %#x; read %d bytes, reference has %d",
-				n.Path(), off+uint64(d), (off+uint64(d))/BlockSize, g, w, len(res.Resok.Data), len(exp))}
+				n.Path(), off+uint64(d), (off+uint64(d))/BlockSize, g, w, len(got), len(exp))}
 		}
 		i = j + 1
 	}
 	return nil
+}
+
+// readFull reads cnt bytes at off the way a client does: a server may answer a READ with fewer bytes than asked
+// for (its rtmax), so the request is repeated from where the data ended until cnt bytes, the end of the file or
+// an empty reply is reached.
+func readFull(api API, fh nt.Nfs_fh3, off, cnt uint64) ([]byte, nt.Nfsstat3) {
+	var out []byte
+	for uint64(len(out)) < cnt {
+		r := api.NFSPROC3_READ(nt.READ3args{File: fh, Offset: nt.Offset3(off + uint64(len(out))), Count: nt.Count3(cnt - uint64(len(out)))})
+		if r.Status != nt.NFS3_OK {
+			return out, r.Status
+		}
+		if len(r.Resok.Data) == 0 {
+			break
+		}
+		out = append(out, r.Resok.Data...)
+		if r.Resok.Eof {
+			break
+		}
+	}
+	return out, nt.NFS3_OK
 }
 
 func sortU64(a []uint64) {
